@@ -306,8 +306,8 @@ Section Lookup.
     | LObj _ => errorf (at_pos' pos (name ++ s2b " isn't a function"))
     end.
 
-  (** lookupManipulatorFunc — the Go code builds make([]types.Type, n-2) and
-      reads Params().At(0), At(1) without checking n >= 2 *)
+  (** lookupManipulatorFunc — make([]types.Type, n-2) and Params().At(0), At(1)
+      are guarded by the n >= 2 check *)
   Definition lookup_manipulator_func (name : str) (opt_name : string) (pos : position) : res manipulator :=
     match lookup_type name with
     | LNotFound => errorf (at_pos' pos (s2b "function " ++ name ++ s2b " not found"))
@@ -328,7 +328,9 @@ Section Lookup.
                      mp_dst := dst; mp_src := src; mp_args := args;
                      mp_ret_err := match sg_rtys sg with [_] => true | _ => false end;
                      mp_pos := pos |}
-          | _ => panic "lookupManipulatorFunc: make([]types.Type, n-2) with n < 2"
+          | _ =>
+              (* fewer than two parameters: rejected before make([]types.Type, n-2) *)
+              errorf (at_pos' pos (s2b "function " ++ name ++ s2b " cannot use for " ++ s2b opt_name ++ s2b " func"))
           end
     | LObj OFuncUnref => panic "model: unreferenced function looked up"
     | LObj _ => errorf (at_pos' pos (name ++ s2b " isn't a function"))
@@ -403,7 +405,7 @@ Section Lookup.
           | dst :: _ :: _ =>
               match literal_match m2 with
               | Some lit => ret (add_lit o {| ls_dst := dst; ls_literal := lit; ls_pos := cpos |}, posrev)
-              | None => panic "parseNotationInComments: reLiteral does not match, m[1] on a nil slice"
+              | None => errorf (at_pos cpos "needs <dst> <literal> args")   (* reLiteral does not match: only non-ASCII space separates the fields *)
               end
           | _ => errorf (at_pos cpos "needs <dst> <literal> args")
           end
